@@ -122,6 +122,7 @@ type Node struct {
 	SplitLines int
 	TagKey     string
 	OutPath    string
+	ZeroCores  bool // CoresPerTask = 0: the tasks take no slot
 	Globs      []string
 	Dup        bool // (FileGlobber) the patterns overlap: some file is emitted more than once
 	FilePath   string
